@@ -1,7 +1,7 @@
 """Property -> rules table."""
 from __future__ import annotations
 
-from . import bounds, save
+from . import bounds, game, gym, save
 
 _NOTE = ("Static analysis of /repo's current source (Python ast, own name resolution, provenance terms, "
          "path-sensitive walks). Decides the structural necessary conditions listed; does not observe numeric behaviour.")
@@ -25,8 +25,17 @@ PROPERTIES: dict[str, dict] = {
     "C07": {"title": "More information never hurts", "rules": [bounds.rule_bounds],
             "explanation": _NOTE + " C07: B13 knowledge polarity of every candidate set in all registered computers.",
             "rule": _SITE_RULE},
-    "C08": {"title": "Bounds depend only on current knowledge", "rules": [bounds.rule_bounds],
+    "C08": {"title": "Bounds depend only on current knowledge", "rules": [bounds.rule_bounds, gym.rule_h3_undo, game.rule_c17_copy_neg_init],
             "explanation": _NOTE + " C08: B1-B5 for all six registered computers, H1 no hidden state.",
+            "rule": _SITE_RULE},
+    "C09": {"title": "The reveal-one-coalition environment", "rules": [gym.rule_c09_typestate, gym.rule_c09_step, gym.rule_c09_spaces, gym.rule_c09_reset, gym.rule_c09_done, gym.rule_h3_undo],
+            "explanation": _NOTE + " C09: T1 recompute-before-observe typestate, Y1 reveal pairing, Y2 index-space agreement, Y3 reset order/aliasing, Y4 explorable set, Y5 reward sign, D1 done predicate, H3 undo pairing.",
+            "rule": _SITE_RULE},
+    "C16": {"title": "The size-aggregated environment", "rules": [gym.rule_c16],
+            "explanation": _NOTE + " C16: Z1 aggregation of every observation/mask, Z2 candidate set = size AND mask, Z3 pass-through, Z4 sizes aligned with the inner explorable list.",
+            "rule": _SITE_RULE},
+    "C17": {"title": "An incomplete game object is a faithful map", "rules": [game.rule_c17_columns, game.rule_c17_getters, game.rule_c17_copy_neg_init, game.rule_c17_writers],
+            "explanation": _NOTE + " C17: G1 column discipline, G2 guarded getters, G3 masked bulk setters, G4 copy/negation, G5 who-may-write _values, G6 view escape, G7 reset order, G8 reveal/unreveal preconditions.",
             "rule": _SITE_RULE},
     "C19": {
         "title": "Saved results read back faithfully and are never overwritten",
